@@ -1072,6 +1072,13 @@ pub(crate) fn eval<
             }
         }
         for i in 0..RATE_EXT {
+            // The right-hand placement only exists where the sibling half fits into the state
+            // (`2·RATE_EXT == WIDTH_EXT`, the arity-2 shapes). Wider-rate shapes (width 24:
+            // `RATE_EXT = 4`, `WIDTH_EXT = 6`) have no Merkle mode; indexing `RATE_EXT + i` there
+            // is out of bounds and made `eval` panic on every window.
+            if RATE_EXT + i >= WIDTH_EXT {
+                continue;
+            }
             let gate_right_i = next_prep.input_limbs[i].merkle_chain_sel * next_bit;
             for d in 0..D {
                 builder
